@@ -30,7 +30,7 @@ ASSUMPTIONS = [
 @st.composite
 def cases(draw, tier):
     cls = draw(st.sampled_from(["H", "H", "DH", "SC"]))
-    spec = draw(nets.net_spec(cls=cls, max_edges=6, allow_empty=(cls != "SC" and draw(st.integers(0, 2)) == 0), nested=True))
+    spec = draw(nets.net_spec(wide_labels=True, cls=cls, max_edges=6, allow_empty=(cls != "SC" and draw(st.integers(0, 2)) == 0), nested=True))
     return {"spec": spec, "keys": draw(st.lists(st.integers(0, 10**6), min_size=8, max_size=8))}
 
 
